@@ -221,6 +221,20 @@ class Cond(Ev):
         return f"cond {'' if self.truth else 'not '}({self.text}){'?' if self.forked else ''} @{self.loc}"
 
 
+class Read(Ev):
+    """Attribute read (only logged when the interpreter is created with log_reads=True).  `consts` is None for a
+    plain read, or the set of enum members / constants the value is compared with (==, !=, in, is)."""
+    kind = "read"
+
+    def __init__(self, cls, attr, recv, consts, node, func, stack):
+        super().__init__(node, func, stack)
+        self.cls, self.attr, self.recv, self.consts = cls, attr, recv, consts
+
+    def __repr__(self):
+        c = "" if self.consts is None else f" cmp {sorted(map(str, self.consts))}"
+        return f"read {self.cls}.{self.attr} of {self.recv!r}{c} @{self.loc}"
+
+
 class Ret(Ev):
     kind = "ret"
 
@@ -287,7 +301,7 @@ class Frame:
 
 class Interp:
     def __init__(self, repo, types, eff, inline=None, max_depth=4, max_paths=3000, collections=None,
-                 exc_in_try=False, enum_domain=None, call_hook=None, havoc_on_call=True, integral=()):
+                 exc_in_try=False, enum_domain=None, call_hook=None, havoc_on_call=True, integral=(), unroll_while=0):
         self.repo, self.types, self.eff = repo, types, eff
         self.inline = inline or (lambda call, callee, depth: False)
         self.max_depth = max_depth
@@ -298,6 +312,9 @@ class Interp:
         self.call_hook = call_hook
         self.havoc_on_call = havoc_on_call
         self.integral = set(integral)  # symbols known to be integer-valued (besides len(...))
+        self.log_reads = False
+        self._cmp_consts = None
+        self.unroll_while = unroll_while  # >0: execute `while` loops concretely for up to that many iterations
         self.npaths = 0
         self._fresh = itertools.count()
         self.unknown_stmts = []
@@ -802,6 +819,34 @@ class Interp:
         return res
 
     def exec_while(self, s, st, fr):
+        if self.unroll_while > 0:
+            active, done = [st], []
+            for _i in range(self.unroll_while):
+                nxt = []
+                for st0 in active:
+                    for st1, truth, forked in self.branch(s.test, st0, fr):
+                        if not truth:
+                            done.append((st1, None))
+                            continue
+                        for st2, ex in self.exec_block(s.body, st1, fr):
+                            if ex is None or ex[0] == "continue":
+                                nxt.append(st2)
+                            elif ex[0] == "break":
+                                done.append((st2, None))
+                            else:
+                                done.append((st2, ex))
+                active = nxt
+                if not active:
+                    return done
+                if len(active) + len(done) > self.max_paths:
+                    raise AnalysisError(f"path explosion unrolling while loop at {fr.func.loc(s)}")
+            # not finished within the bound: continue each remaining state in summary mode
+            for st0 in active:
+                done.extend(self._exec_while_summary(s, st0, fr))
+            return done
+        return self._exec_while_summary(s, st, fr)
+
+    def _exec_while_summary(self, s, st, fr):
         names, attrs = self._assigned_in(s.body)
         attrs |= self._callee_write_attrs(s.body, fr)
         self.havoc(st, names, attrs, fr)
@@ -953,7 +998,11 @@ class Interp:
             en = r.enum_of_member_expr(e)
             if en:
                 return EnumSet(en[0], [en[1]])
+            cc, self._cmp_consts = self._cmp_consts, None
             base = self.eval(e.value, st, fr, effects)
+            self._cmp_consts = cc
+            if self.log_reads and isinstance(base, Obj) and base.cls and isinstance(e.ctx, ast.Load):
+                st.trace.append(Read(base.cls, e.attr, base, self._cmp_consts, e, fr.func, fr.stack))
             if isinstance(base, Obj):
                 k = (base.name, e.attr)
                 if k in st.heap:
@@ -1293,9 +1342,43 @@ class Interp:
     def _enum_val(self, v):
         return {self.repo.enums[v.cls][m] for m in v.members}
 
+    def _const_members(self, node):
+        en = self.repo.enum_of_member_expr(node)
+        if en:
+            return {en[1]}
+        if isinstance(node, (ast.List, ast.Tuple, ast.Set)) and node.elts and all(self.repo.enum_of_member_expr(x) for x in node.elts):
+            return {self.repo.enum_of_member_expr(x)[1] for x in node.elts}
+        if isinstance(node, ast.Constant):
+            return {repr(node.value)}
+        return None
+
     def compare(self, op, le, re_, st, fr):
-        a = self.eval(le, st, fr)
-        b = self.eval(re_, st, fr)
+        a, b = self._cmp_sides(op, le, re_, st, fr)
+        return self._compare_vals(op, a, b, re_, st, fr)
+
+    def _cmp_sides(self, op, le, re_, st, fr):
+        if self.log_reads and isinstance(op, (ast.Eq, ast.NotEq, ast.Is, ast.IsNot, ast.In, ast.NotIn)):
+            cl, cr = self._const_members(le), self._const_members(re_)
+            saved = self._cmp_consts
+            if cr is not None and isinstance(le, ast.Attribute):
+                self._cmp_consts = cr
+                a = self.eval(le, st, fr)
+                self._cmp_consts = saved
+                b = self.eval(re_, st, fr)
+            elif cl is not None and isinstance(re_, ast.Attribute):
+                a = self.eval(le, st, fr)
+                self._cmp_consts = cl
+                b = self.eval(re_, st, fr)
+                self._cmp_consts = saved
+            else:
+                a = self.eval(le, st, fr)
+                b = self.eval(re_, st, fr)
+        else:
+            a = self.eval(le, st, fr)
+            b = self.eval(re_, st, fr)
+        return a, b
+
+    def _compare_vals(self, op, a, b, re_, st, fr):
         if isinstance(op, (ast.In, ast.NotIn)):
             r = self._contains(a, b, re_, st, fr)
             if r is None:
@@ -1454,8 +1537,7 @@ class Interp:
             return True
         if isinstance(test, ast.Compare) and len(test.ops) == 1:
             op, le, re_ = test.ops[0], test.left, test.comparators[0]
-            a = self.eval(le, st, fr)
-            b = self.eval(re_, st, fr)
+            a, b = self._cmp_sides(op, le, re_, st, fr)
             if isinstance(op, (ast.Eq, ast.NotEq, ast.Is, ast.IsNot)):
                 pos = isinstance(op, (ast.Eq, ast.Is)) == truth
                 for x, xe, y in ((a, le, b), (b, re_, a)):
